@@ -45,7 +45,9 @@ RULE = ("cases: per Faker locale (quick: en_US, default, ja_JP, ko_KR + 10 sampl
 TRUSTED = ["harness/c18.py: faker.proxy.Faker.__getattr__ wrapped from the harness side (records / injects / stubs the "
            "top-level Faker calls); random.Random._randbelow wrapped for the module-level generator only",
            "harness/c18.py: the capturing OutputStream"]
-ASSUMPTIONS = ["Faker: safe_domain_name() returns an element of the provider's safe_domain_names (checked per locale: "
+ASSUMPTIONS = ["code as repaired by the fix commits for C18-K1 (names are cut before the uuid, 16 uuid characters kept) and "
+               "C18-K2 (fifth table layer: Faker spellings of Snowfakery names)",
+               "Faker: safe_domain_name() returns an element of the provider's safe_domain_names (checked per locale: "
                "subset of example.com/.org/.net); ascii_safe_email() is <no '@'>@<reserved domain> (checked on every draw)",
                "Faker: hostname() has no '@' and at most 79 characters; uuid4() has 36 characters and no '@'; "
                "first_name()/last_name() contain no '@' (checked on every recorded value)",
@@ -614,11 +616,6 @@ def py_hyps(fa, sa, sigs):
     for k, v in by.items():
         if len({sg.get(n, "?") for n in v}) > 1:
             reasons.append(["snowfakery-collision", k, sorted(set(v))])
-    sfc = {canon(n) for n in sa}
-    keys = {n.lower() for n in sa} | sfc
-    for n in fa:
-        if canon(n) in sfc and n.lower() not in keys:
-            reasons.append(["not-covered", canon(n), n])
     return (not reasons), reasons
 
 
@@ -799,6 +796,9 @@ def oracle(case, obs):
                 return f"user: {v!r} does not end with the host name"
             if len(v) < 80 and case["uuid"] not in v:
                 return f"user: {v!r} was not truncated but does not contain the uuid {case['uuid']!r}"
+            if len(case["host"]) <= 62 and case["uuid"][:16] not in v.rsplit("@", 1)[0]:
+                return (f"user: {v!r} does not contain the first 16 characters of the uuid {case['uuid']!r} "
+                        f"although the host name leaves room for them")
         return None
     if kind == "email":
         if "ok" not in obs:
@@ -882,6 +882,10 @@ def oracle(case, obs):
                 if isinstance(v, str) and len(v) < 80 and uu and not any(u in v for u in uu):
                     return (f"rows: row {i} field {j}: username {v!r} was not truncated but contains none of the "
                             f"uuid4 values {uu}")
+                if (isinstance(v, str) and host is not None and len(host) <= 62 and uu
+                        and not any(len(u) >= 16 and u[:16] in v.rsplit("@", 1)[0] for u in uu)):
+                    return (f"rows: row {i} field {j}: username {v!r} keeps fewer than 16 characters of its uuid "
+                            f"{uu} although the host name leaves room for them")
                 if v in users and repeat is None:
                     repeat = f"repeat: locale {case['locale']}: username {v!r} produced twice (rows {users[v]} and {i})"
                 users[v] = i
